@@ -34,7 +34,7 @@ EPOCH = dt.datetime(1970, 1, 1)
 
 
 @st.composite
-def scenario(draw, tier="quick", fault=False):
+def scenario(draw, tier="quick", fault=False, cooldown=False):
     nm = draw(st.sampled_from([1, 2, 2, 3, 3, 5]))
     ep = draw(st.integers(0, 3)) > 0
     n_events = draw(st.integers(1, min(3, nm)))
@@ -60,7 +60,20 @@ def scenario(draw, tier="quick", fault=False):
                 s["dt"] = 1000
         spec["steps"] = steps
         markets.append(spec)
-        scripts += draw(gen.script(spec, states, mi=mi, max_entries=3, max_ops=2, place_kw=dict(kinds=("LIMIT",), sp=False, sizes="level")))
+        ents = draw(gen.script(spec, states, mi=mi, max_entries=3, max_ops=2, place_kw=dict(kinds=("LIMIT",), sp=False, sizes="level")))
+        if cooldown:
+            # repeated takers on one runner with trade cool-downs: whether the next one is accepted depends on the
+            # (simulated) time since the previous trade completed / was placed - never on the wall clock
+            rs, prs = draw(st.sampled_from([0.0, 0.5, 5.0, 60.0])), draw(st.sampled_from([0.0, 0.0, 0.5, 5.0]))
+            for k in sorted(draw(st.sets(st.integers(1, max(1, len(states) - 1)), min_size=1, max_size=6))):
+                ents.append({"m": mi, "at": k, "ops": [{"op": "place", "r": 0, "side": draw(st.sampled_from(["BACK", "LAY"])), "type": "LIMIT",
+                                                         "tick": draw(st.sampled_from([0, 40, 300])), "size": 2.0, "pers": "LAPSE",
+                                                         "reset_seconds": rs, "place_reset_seconds": prs}]})
+        for e_ in ents:
+            for op_ in e_["ops"]:
+                if op_.get("op") == "place" and "reset_seconds" not in op_ and draw(st.integers(0, 3)) == 0:
+                    op_["reset_seconds"] = draw(st.sampled_from([0.5, 5.0, 60.0]))
+        scripts += ents
     sc = {"markets": markets, "event_processing": ep, "listener_kwargs": lk,
           "strategies": [gen.strategy_spec("A", script=scripts), gen.strategy_spec("OBS", script=[])],
           "clients": [{"min_bet_validation": False}], "config": {}}
@@ -215,7 +228,8 @@ def check_fault(sc):
 def check_subprocess(sc):
     _, led = run_once(sc, capture=False)
     outs = []
-    for hseed, offset in (("1", 86400.0 * 3653), ("4242", -86400.0 * 400.5)):
+    # wall clock ten years ahead / 1500.5 days back (= before the recorded data, whatever the real date until 2027)
+    for hseed, offset in (("1", 86400.0 * 3653), ("4242", -86400.0 * 1500.5)):
         env = dict(os.environ, PYTHONHASHSEED=hseed, FLV_REPO=REPO_DIR, PYTHONDONTWRITEBYTECODE="1")
         p = subprocess.run([sys.executable, os.path.join(VERIF_DIR, "flv", "child_run.py"), str(offset)], input=json.dumps(sc),
                            capture_output=True, text=True, env=env, timeout=300)
@@ -225,7 +239,7 @@ def check_subprocess(sc):
             raise HarnessError("child failed: %s" % p.stderr[-2000:])
         outs.append(json.loads(p.stdout.strip().splitlines()[-1]))
     ref = json.loads(json.dumps(led, default=str))
-    for o, tag in zip(outs, ("hashseed=1,+10y", "hashseed=4242,-400d")):
+    for o, tag in zip(outs, ("hashseed=1,+10y", "hashseed=4242,-1500d")):
         if o["ledgers"] != ref:
             raise Violation("not-deterministic", ("subprocess",), "fresh process (%s) produced a different ledger" % tag, sc)
     if outs[0]["seq"] != outs[1]["seq"]:
@@ -242,7 +256,7 @@ def sub_fault(col, budget, seed, tier, shard, nshards):
 
 
 def sub_subprocess(col, budget, seed, tier, shard, nshards):
-    run_given(col, scenario(tier), check_subprocess, budget, seed, tier, "subprocess")
+    run_given(col, scenario(tier, cooldown=True), check_subprocess, budget, seed, tier, "subprocess")
 
 
 def subchecks(tier):
